@@ -156,6 +156,8 @@ def run_c16(ctx: Ctx) -> None:
                      "every": 5 if focus != "energy" else 3, "later": 8, "throttle": focus == "energy"})
         if k % 3 == 1:
             jobs[-1]["dispatcher"] = {"charging_search_type": "shortest_time_to_charge"}     # the other station ranking
+        if focus is None:
+            jobs[-1]["mix"] = "plan+builtin" if k % 2 == 0 else "builtin+plan"       # a controller that re-uses its instruction objects
         if focus == "queue":
             jobs[-1]["mix"] = ["builtin", "builtin+adv"][k % 2]       # the charging manager ranks a full station with a queue
         if focus == "energy":
